@@ -23,7 +23,8 @@ ID = "C18"
 LEVEL = "model_checking"
 RULE = (
     "L1: every context tree of the grammar (root with 1..3 children; child = request leaf (delay, duration) or nested context with "
-    "1..2 children, sequential or concurrent, optional idle time after its last request; third level single-request contexts) with "
+    "1..2 children, sequential or concurrent, optional idle time after its last request; third level single-request contexts; contexts "
+    "that issue no request at all before / between / after real requests) with "
     "delays {0,1}, durations {1,4}, idle {0,2}; L2: 8 composite stream structures x every assignment of 3 sub-operation kinds x "
     "max-connections {1,2,unbounded}; L3: pairs of composites on two clients in one loop. Every order of simultaneously due timers "
     "is explored up to the deviation bound. non-trivial = at least two requests under one context; distinct = (tree, schedule)"
@@ -61,6 +62,23 @@ def failing_trees():
             yield ("C", "seq", [("C", "par", [g, g], 0), ("C", "seq", [g, x], 0)], 0)
 
 
+def idle_trees():
+    """contexts that are entered and left without any wire request below them (a skipped or short-circuited step), before, between and
+    after real requests, sequentially and concurrently: they record nothing and contribute nothing to their parent"""
+    idle = [("E", d) for d in (0, 1, 3)]
+    good = leaves_alpha()
+    for e in idle:
+        yield ("C", "seq", [e], 0)
+        for g in good:
+            for mode in ("seq", "par"):
+                yield ("C", mode, [e, g], 0)
+                yield ("C", mode, [g, e], 0)
+                yield ("C", mode, [e, g, e], 0)
+                yield ("C", mode, [g, e, g], 0)
+                yield ("C", mode, [("C", "seq", [e], 0), g], 0)
+                yield ("C", mode, [g, ("C", "seq", [e, ("C", "seq", [e], 2)], 0)], 0)
+
+
 def ctx3_alpha():
     return [("C", "seq", [l], p) for l in leaves_alpha() for p in (0, 2)]
 
@@ -91,10 +109,18 @@ def trees(tier):
 
 
 def count_leaves(node):
+    if node[0] == "E":
+        return 0
     return 1 if node[0] in ("L", "X") else sum(count_leaves(c) for c in node[2])
 
 
 async def run_node(node, holder, truth, obs, path):
+    if node[0] == "E":
+        with holder.new_request_context() as ctx:
+            if node[1]:
+                await asyncio.sleep(node[1])
+            obs[path] = (ctx.request_start, ctx.request_end)
+        return
     if node[0] in ("L", "X"):
         if node[1]:
             await asyncio.sleep(node[1])
@@ -141,11 +167,13 @@ def classify(path, got, want, tree):
 
 
 def has_failure(node):
+    if node[0] == "E":
+        return False
     return node[0] == "X" or (node[0] == "C" and any(has_failure(c) for c in node[2]))
 
 
 def has_concurrency(node):
-    if node[0] in ("L", "X"):
+    if node[0] in ("L", "X", "E"):
         return False
     return (node[1] == "par" and len(node[2]) > 1) or any(has_concurrency(c) for c in node[2])
 
@@ -393,7 +421,7 @@ def _job(arg):
 
 def run(tier, seed):
     bound = 1 if tier == "quick" else 2
-    t = list(trees(tier)) + list(failing_trees())
+    t = list(trees(tier)) + list(failing_trees()) + list(idle_trees())
     l2 = [(si, kinds, mc) for si in range(len(STRUCTS)) for kinds in itertools.product(KINDS, repeat=3) for mc in (None, 1, 2)]
     pairs = [(2, ("slow", "fast", "fast")), (3, ("fast", "sleep", "slow")), (6, ("slow", "fast", "sleep")), (0, ("fast", "fast", "fast"))]
     l3 = [(a, b, off) for a in pairs for b in pairs for off in (0, 0.25, 1.0)]
@@ -415,6 +443,8 @@ def replay(data):
     ch = explore.Chooser(tuple(data["choices"]))
 
     def tup(n):
+        if n[0] == "E":
+            return ("E", n[1])
         return (n[0], n[1], n[2]) if n[0] in ("L", "X") else ("C", n[1], [tup(c) for c in n[2]], n[3])
 
     if data["layer"] == 1:
